@@ -85,10 +85,17 @@ impl List {
         // Compute array size
         let array_size = if compact { coupon_count } else { 1 << lg_arr };
 
-        // Read coupons
-        let mut coupons = vec![0u32; array_size];
+        // Read coupons. The in-memory list always has its full capacity, otherwise a compact
+        // image would deserialize into a list that is already full and drops the next update.
+        let capacity = 1usize << lg_arr;
+        if coupon_count > capacity {
+            return Err(Error::deserial(format!(
+                "list coupon count {coupon_count} exceeds capacity {capacity}"
+            )));
+        }
+        let mut coupons = vec![0u32; capacity];
         if !empty && coupon_count > 0 {
-            for (i, coupon) in coupons.iter_mut().enumerate() {
+            for (i, coupon) in coupons.iter_mut().take(array_size).enumerate() {
                 *coupon = cursor.read_u32_le().map_err(|_| {
                     Error::insufficient_data(format!(
                         "expect {coupon_count} coupons, failed at index {i}"
